@@ -637,6 +637,7 @@ func run(c *vlib.Ctx) error {
 					base := realBase
 					if realBaseX != "" && j.cid%2 == 0 {
 						base = realBaseX
+						j.real.XDev = true
 					}
 					recs = runRealCase(m, dataDir, base, j.cid, *j.real)
 				} else {
@@ -677,7 +678,14 @@ func replay(c *vlib.Ctx) error {
 	if in, ok := begin["in"].(map[string]any); ok && in["real"] == true {
 		var rs realScript
 		vlib.Decode(begin["in"], &rs)
-		emitAll(c, runRealCase(m, dataDir, c.TempDir("roots"), 1, rs))
+		base := c.TempDir("roots")
+		if rs.XDev {
+			if d, err := os.MkdirTemp("/dev/shm", "verif-session-replay-"); err == nil {
+				base = d
+				defer rmTree(d)
+			}
+		}
+		emitAll(c, runRealCase(m, dataDir, base, 1, rs))
 		return nil
 	}
 	var sc caseScript
